@@ -50,19 +50,38 @@ def text(code, rep='std'):
 
 
 class Rec(object):
-    """forwards failures to ctx.fail, keeping at most `cap` per (clause, signature) so that a systematic
-    defect (tens of thousands of failing rows) does not flood memory; the totals are kept"""
+    """collects failures and hands them to ctx.fail at the end (flush), keeping the `cap` smallest per
+    (clause, signature) so that a systematic defect (tens of thousands of failing rows) neither floods
+    memory nor hides its simplest instance; the totals are kept"""
 
     def __init__(self, ctx, cap=25):
         self.ctx = ctx
         self.cap = cap
         self.totals = collections.Counter()
+        self.kept = {}
+
+    @staticmethod
+    def size(detail):
+        return len((detail or {}).get('command_line', ''))
 
     def fail(self, clause, case, detail=None, signature=None):
         key = (clause, json.dumps(signature or {}, sort_keys=True))
         self.totals[key] += 1
-        if self.totals[key] <= self.cap:
-            self.ctx.fail(clause, case, detail, signature)
+        lst = self.kept.setdefault(key, [])
+        item = (self.size(detail), self.totals[key], clause, case, detail, signature)
+        if len(lst) < self.cap:
+            lst.append(item)
+        else:
+            worst = max(range(len(lst)), key=lambda i: lst[i][:2])
+            if item[:2] < lst[worst][:2]:
+                lst[worst] = item
+        return item
+
+    def flush(self):
+        for key in sorted(self.kept):
+            for _, _, clause, case, detail, signature in sorted(self.kept[key], key=lambda it: it[:2]):
+                self.ctx.fail(clause, case, detail, signature)
+        self.kept = {}
 
     def total(self):
         return sum(self.totals.values())
@@ -183,6 +202,8 @@ def split_row_child(r, transport, bench, rec, stats, encoding=None):
         stats['evaluations'] += 1
         if transport == 'pty':
             err = run_pty(s, env=bench.env(), encoding=encoding)
+        elif transport == 'pty-list':          # the list form: nothing is split, the list is the argv
+            err = run_pty(want_args[0], want_args[1:], env=bench.env(), encoding=encoding)
         else:
             err = run_popen(s, env=bench.env(), encoding=encoding)
         got = bench.report()
@@ -194,7 +215,8 @@ def split_row_child(r, transport, bench, rec, stats, encoding=None):
     bad = stable(once)
     if bad is not None:
         rec.fail('C13:argv-in-child', {'kind': 'argv', 'row': r, 'transport': transport, 'encoding': encoding},
-                 detail=bad, signature={'part': 'argv', 'transport': transport, 'lead': r['l'], 'style': r['y']})
+                 detail=bad, signature={'part': 'argv', 'transport': transport, 'style': r['y'],
+                                        'lead': r['l'] if transport != 'pty-list' else None})
 
 
 # ---------------------------------------------------------------------------------------------
@@ -570,14 +592,17 @@ def self_test(ctx, split_sample, which_table, config_table, abench, cbench):
     r['a'] = list(r['a'])
     r['a'][0] = r['a'][0] + 'x'
     split_row_inprocess(r, rec, new_stats(), reps=('std',))
+    rec.flush()
     n1 = len(p.failures)
     split_row_child(r, 'pty', abench, rec, new_stats())
+    rec.flush()
     n2 = len(p.failures) - n1
     wr = next(x for x in which_table if x['want']['k'] == 'found' and x['want']['idx'] == 2)
     bad = json.loads(json.dumps(wr))
     bad['want'] = {'k': 'found', 'src': wr['want']['src'], 'idx': 1}
     bad['world']['src']['dirs'][0] = 'file'          # keep the tree, claim the non-executable first entry wins
     which_row(bad, os.path.join(ctx.work, 'selftest_tree'), rec, new_stats(), transports=('pty',))
+    rec.flush()
     n3 = len(p.failures) - n1 - n2
     cr = next(x for x in config_table if x['row']['transport'] == 'pty' and x['row']['dims'] == 'small'
               and not x['row']['echo'] and x['row']['ignore_sighup'] and x['row']['cwd'] == 'tmp'
@@ -585,6 +610,7 @@ def self_test(ctx, split_sample, which_table, config_table, abench, cbench):
     bad = json.loads(json.dumps(cr))
     bad['want'].update({'rows': 31, 'cols': 7, 'echo': True, 'sighup': 'default', 'cwd': 'parent', 'env': 'inherited'})
     config_row(bad, cbench, rec, new_stats())
+    rec.flush()
     clauses = set(a[0] for a in p.failures[n1 + n2 + n3:])
     wantc = {'C13:cwd', 'C13:env', 'C13:winsize', 'C13:echo', 'C13:sighup'}
     if not (n1 and n2 and n3 >= 2 and wantc <= clauses):
@@ -611,6 +637,7 @@ def replay(ctx):
         config_row(c['row'], ConfigBench(ctx.work), rec, st, ctx)
     else:
         raise tlc.TLCError('unknown replay kind %r' % c['kind'])
+    rec.flush()
     print('  replayed %s case: %d implementation test(s), %d failure(s)' % (c['kind'], st['evaluations'], len(ctx.failures)))
     for f in ctx.failures:
         print('  %s: %s' % (f.clause, json.dumps(f.detail, default=str)[:600]))
@@ -664,17 +691,21 @@ def run(ctx):
     t0 = time.time()
     abench = ArgvBench(ctx.work)
     st_argv = new_stats()
-    npty = npopen = 0
+    npty = npopen = nlist = 0
     for n, r in enumerate(sample):
         split_row_child(r, 'pty', abench, rec, st_argv, encoding=(None, 'utf-8')[n % 2])
         npty += 1
+        if len(r['a']) > 1:
+            split_row_child(r, 'pty-list', abench, rec, st_argv, encoding=(None, 'utf-8')[n % 2])
+            nlist += 1
         if r['px']:
             split_row_child(r, 'popen', abench, rec, st_argv, encoding=(None, 'utf-8')[n % 2])
             npopen += 1
     t_argv = time.time() - t0
     fails_argv = rec.total() - fails_split
     ctx.note('argv in child: %d sampled cases through pexpect.spawn(command line), %d of them (same meaning for shlex) through '
-             'PopenSpawn; %d real launches, %d cases disagree (%.0fs)' % (npty, npopen, st_argv['evaluations'], fails_argv, t_argv))
+             'PopenSpawn, %d in list form spawn(program, args); %d real launches, %d cases disagree (%.0fs)' % (
+                 npty, npopen, nlist, st_argv['evaluations'], fails_argv, t_argv))
 
     # (b) every PATH layout on which(); through real children: all (thorough) or a seeded sample (quick)
     t0 = time.time()
@@ -709,6 +740,7 @@ def run(ctx):
     clean = next((r for r in sample if not r['l']), sample[0])
     self_test(ctx, clean, which_table, config_table, abench, cbench)
 
+    rec.flush()
     if rec.total() > len(ctx.failures):
         ctx.note('%d failing implementation tests in total; %d kept for the report (at most %d per clause and signature)' % (
             rec.total(), len(ctx.failures), rec.cap))
